@@ -14,6 +14,7 @@ FE_CPP = 'src/tbbmalloc/frontend.cpp'
 AR_CPP = 'src/tbb/arena.cpp'
 FGJ_H = 'include/oneapi/tbb/detail/_flow_graph_join_impl.h'
 FG_H = 'include/oneapi/tbb/flow_graph.h'
+IB_H = 'include/oneapi/tbb/detail/_flow_graph_item_buffer_impl.h'
 FGN_H = 'include/oneapi/tbb/detail/_flow_graph_node_impl.h'
 FGC_H = 'include/oneapi/tbb/detail/_flow_graph_cache_impl.h'
 CPQ_H = 'include/oneapi/tbb/concurrent_priority_queue.h'
@@ -36,6 +37,52 @@ CM_H = 'src/tbb/concurrent_monitor.h'
 CQ_H = 'include/oneapi/tbb/concurrent_queue.h'
 
 MUTANTS = [
+    dict(name='c02-seed-conditional-wakeup-forward', prop='C02', clause='D4', edits=[
+        (AR_CPP, "            size_t index2 = arena::out_of_arena;\n", "            size_t index2 = arena::out_of_arena;\n            bool was_woken = false;\n"),
+        (AR_CPP, "                a->my_exit_monitors.commit_wait(waiter);\n", "                was_woken |= a->my_exit_monitors.commit_wait(waiter);\n"),
+        (AR_CPP, "            if (index2 == arena::out_of_arena) {\n", "            if (index2 == arena::out_of_arena && was_woken) {\n")]),
+    dict(name='c03-seed-reparent-before-child', prop='C03', clause='D8', edits=[(PF_H, """        start_for& right_child = *alloc.new_object<start_for>(ed, std::forward<Args>(constructor_args)..., alloc);
+
+        // New root node as a continuation and ref count. Left and right child attach to the new parent.
+        right_child.my_parent = my_parent = alloc.new_object<tree_node>(ed, my_parent, 2, alloc);
+""", """        my_parent = alloc.new_object<tree_node>(ed, my_parent, 2, alloc);
+        start_for& right_child = *alloc.new_object<start_for>(ed, std::forward<Args>(constructor_args)..., alloc);
+        right_child.my_parent = my_parent;
+""")]),
+    dict(name='c03-reduce-reparent-before-child', prop='C03', clause='D8', edits=[(PR_H, """        auto right_child = alloc.new_object<start_deterministic_reduce>(ed, std::forward<Args>(args)..., new_tree_node->right_body, alloc);
+
+        right_child->my_parent = my_parent = new_tree_node;
+""", """        my_parent = new_tree_node;
+        auto right_child = alloc.new_object<start_deterministic_reduce>(ed, std::forward<Args>(args)..., new_tree_node->right_body, alloc);
+
+        right_child->my_parent = new_tree_node;
+""")]),
+    dict(name='c14-seed-forwarder-ignores-reservation', prop='C14', clause='D6', edits=[
+        (FG_H, "        if (this->my_reserved || !derived->is_item_valid()) {", "        if (!derived->is_item_valid()) {"),
+        (FG_H, "    bool is_item_valid() {\n        return this->my_item_valid(this->my_tail - 1);", "    bool is_item_valid() {\n        return !this->my_reserved && this->my_item_valid(this->my_tail - 1);"),
+        (FG_H, "    bool is_item_valid() {\n        return this->my_tail > 0;", "    bool is_item_valid() {\n        return !this->my_reserved && this->my_tail > 0;")]),
+    dict(name='c14-buffer-pop-ignores-reservation', prop='C14', clause='D6', edits=[(FG_H, "        if (this->my_reserved && this->size() == 1) {", "        if (this->size() == 0) {")]),
+    dict(name='c14-queue-pop-ignores-reservation', prop='C14', clause='D6', edits=[(FG_H, """    void internal_pop(queue_operation *op) override {
+        if ( this->my_reserved || !this->my_item_valid(this->my_head)){""", """    void internal_pop(queue_operation *op) override {
+        if ( !this->my_item_valid(this->my_head)){""")]),
+    dict(name='c14-double-reservation', prop='C14', clause='D6', edits=[(IB_H, "        if(my_reserved || !my_item_valid(this->my_head)) return false;", "        if(!my_item_valid(this->my_head)) return false;")]),
+    dict(name='c17-seed-shift-large-object', prop='C17', clause='D4', edits=[(FE_CPP, "else if (size+alignment < minLargeObjectSize) {", "else if (size+alignment <= minLargeObjectSize) {")]),
+    dict(name='c17-shift-unguarded', prop='C17', clause='D4', edits=[(FE_CPP, "else if (size+alignment < minLargeObjectSize) {", "else if (alignment < minLargeObjectSize) {")]),
+    dict(name='c09-seed-unsigned-full-check', prop='C09', clause='D7', edits=[(CQ_H,
+        "if (static_cast<std::ptrdiff_t>(ticket - my_queue_representation->head_counter.load(std::memory_order_relaxed)) >= my_capacity) {",
+        "if (ticket - my_queue_representation->head_counter.load(std::memory_order_relaxed) >= static_cast<ticket_type>(my_capacity)) {")]),
+    dict(name='c09-unsigned-empty-check', prop='C09', clause='D7', edits=[(CQ_H,
+        "if (static_cast<std::ptrdiff_t>(queue.tail_counter.load(std::memory_order_relaxed) - ticket) <= 0) { // queue is empty",
+        "if ((queue.tail_counter.load(std::memory_order_relaxed) - ticket) <= 0) { // queue is empty")]),
+    dict(name='c01-seed-republish-taken-slot', prop='C01', clause='D3', edits=[(AS_CPP, """            if ( result ) {
+                // If we have a task, it should be at H0 position.
+                __TBB_ASSERT( H0 == T, nullptr );
+                ++H0;
+            }
+""", """            __TBB_ASSERT( !result || H0 == T, nullptr );
+""")]),
+    dict(name='c01-steal-no-hole', prop='C01', clause='D3', edits=[(AS_CPP, "        victim_pool[H-1] = nullptr;\n", "")]),
+    dict(name='c01-get-no-hole', prop='C01', clause='D3', edits=[(AS_CPP, "            task_pool_ptr[T] = nullptr;\n            tail.store(T0, std::memory_order_release);", "            tail.store(T0, std::memory_order_release);")]),
     # ---------------------------------------------------------------- C01
     dict(name='c01-get_task-no-fence', prop='C01', clause='D1', edits=[
         (AS_CPP, "        T = --tail;\n",
@@ -716,6 +763,34 @@ MUTANTS = [
 ]
 
 BENIGN = [
+    dict(name='c02-b-wakeup-forward-inverted-test', prop='C02', edits=[(AR_CPP, """            if (index2 == arena::out_of_arena) {
+                // notify a waiting thread even if this thread did not enter arena,
+                // in case it was woken by a leaving thread but did not need to enter
+                a->my_exit_monitors.notify_one(); // do not relax!
+            }""", """            if (index2 != arena::out_of_arena) {
+                // the nested arena scope has notified on leaving
+            } else {
+                a->my_exit_monitors.notify_one(); // do not relax!
+            }""")]),
+    dict(name='c03-b-node-first-assign-late', prop='C03', edits=[(PF_H, """        start_for& right_child = *alloc.new_object<start_for>(ed, std::forward<Args>(constructor_args)..., alloc);
+
+        // New root node as a continuation and ref count. Left and right child attach to the new parent.
+        right_child.my_parent = my_parent = alloc.new_object<tree_node>(ed, my_parent, 2, alloc);
+""", """        tree_node* new_node = alloc.new_object<tree_node>(ed, my_parent, 2, alloc);
+        start_for& right_child = *alloc.new_object<start_for>(ed, std::forward<Args>(constructor_args)..., alloc);
+        right_child.my_parent = my_parent = new_node;
+""")]),
+    dict(name='c14-b-reservation-checked-in-callee', prop='C14', edits=[
+        (FG_H, "        if (this->my_reserved || !derived->is_item_valid()) {", "        if (!derived->is_item_valid()) {"),
+        (FG_H, "    bool is_item_valid() {\n        return this->my_item_valid(this->my_tail - 1);", "    bool is_item_valid() {\n        return !this->my_reserved && this->my_item_valid(this->my_tail - 1);"),
+        (FG_H, "    bool is_item_valid() {\n        return this->my_item_valid(this->my_head);", "    bool is_item_valid() {\n        return !this->my_reserved && this->my_item_valid(this->my_head);"),
+        (FG_H, "    bool is_item_valid() {\n        return this->my_tail > 0;", "    bool is_item_valid() {\n        return !this->my_reserved && this->my_tail > 0;")]),
+    dict(name='c17-b-bound-minus-one', prop='C17', edits=[(FE_CPP, "else if (size+alignment < minLargeObjectSize) {", "else if (size+alignment <= minLargeObjectSize-1) {")]),
+    dict(name='c17-b-bound-mirrored', prop='C17', edits=[(FE_CPP, "else if (size+alignment < minLargeObjectSize) {", "else if (minLargeObjectSize > size+alignment) {")]),
+    dict(name='c09-b-functional-cast', prop='C09', edits=[(CQ_H,
+        "if (static_cast<std::ptrdiff_t>(ticket - my_queue_representation->head_counter.load(std::memory_order_relaxed)) >= my_capacity) {",
+        "if (std::ptrdiff_t(ticket - my_queue_representation->head_counter.load(std::memory_order_relaxed)) >= my_capacity) {")]),
+    dict(name='c01-b-skip-by-plus-equal', prop='C01', edits=[(AS_CPP, "                ++H0;\n            }", "                H0 += 1;\n            }")]),
     dict(name='c01-b-fetch_sub', prop='C01', edits=[
         (AS_CPP, "        T = --tail;\n", "        T = tail.fetch_sub(1) - 1;\n")]),
     dict(name='c01-b-stronger-orders', prop='C01', edits=[
